@@ -382,10 +382,17 @@ func checkC07(t *testing.T, job *Job, res *Result) {
 		tier = job.Replay.Tier
 	}
 	var scs []*Scenario
-	for _, c := range c07Configs(tier) {
-		scs = append(scs, c07Scenario(c))
+	for i, c := range c07Configs(tier) {
+		sc := c07Scenario(c)
+		if tier == "quick" && i%5 != 0 {
+			sc.Bounds = &Bounds{D: 1, S: 1, Total: 1}
+		}
+		scs = append(scs, sc)
 	}
 	b := Bounds{D: 2, S: 2, Total: 2}
 	res.Rule = "configurations = command sequences over {pause(3.15s), pause(1.05s), resume, stop(msg), redeploy} (length<=2 quick, <=3 thorough) x client sets {ordinary GET, GET and POST on the health path} arriving at offsets between the commands; per configuration every schedule within the bounds; oracle: each request must be explained by SOME arrival point of a sequential gate model (DESIGN.md C07), exact virtual times without stalls"
-	runS(t, job, res, "C07", scs, b, 6000)
+	runS(t, job, res, "C07", scs, b, 8000)
+	if tier == "quick" {
+		res.Bounds = "every configuration with <=1 deviation (thread, select order or stall); every 5th configuration with <=2"
+	}
 }
